@@ -3,6 +3,7 @@ import Fabio.Model.C20Spec
 import Fabio.Model.C20Capture
 import Fabio.Model.C20Url
 import Fabio.Model.C20Serve
+import Fabio.Generated.C20
 /-!
 Driver handlers for C20. For every stream: `model` = output of the Lean model on the case's input,
 `agree` = equals the implementation's output, `spec` = the specification (`Model/C20Spec.lean`: built on
@@ -35,6 +36,39 @@ def differsFromStd (j : Json) : Bool := (j.getObjVal? "std").toOption.isSome && 
 
 def isPanicJ (j : Json) : Bool := (j.getObjVal? "panic").toOption.isSome
 
+/-! ### the functions TRANSLATED from the current Go source
+
+`Generated.C20.XUint16`, `XI32toa`, `XUuid`, `XHostport`, `XAtoi` are written by `tools/factgen/xlate.go` on every run
+from `proxy/http_headers.go`, `uuid/format.go` and `logger/pattern.go`. They are evaluated here on every case next to
+the hand-written model and the real code: this validates the translator itself against the real code
+(`Props/C20Xlate.lean` proves the translation equal to the model). A function the translator refuses is a stub
+(`translated = false`) and is skipped. -/
+namespace XL
+open Fabio.Xlate Fabio.Generated.C20
+
+def bytesJ (b : List UInt8) : Json :=
+  match String.fromUTF8? (ByteArray.mk b.toArray) with
+  | some s => Json.str s
+  | none => Json.str "<translated function returned invalid UTF-8>"
+
+def outJ {σ} : V (List UInt8 × σ) → Json
+  | .ok (r, _) => bytesJ r
+  | .panic _ => panicJson
+
+/-- does the translated function agree with the real code's (canonicalised) output? -/
+def uint16 (n : Nat) (ci : Json) : Bool := !XUint16.translated || outJ (XUint16.run { p0 := UInt16.ofNat n }) == ci
+def i32toa (n : Int) (ci : Json) : Bool := !XI32toa.translated || outJ (XI32toa.run { p0 := n }) == ci
+def uuid (u : List UInt8) (ci : Json) : Bool := !XUuid.translated || outJ (XUuid.run { p0 := u }) == ci
+def hostport (s : String) (ci : Json) : Bool := !XHostport.translated ||
+  (match XHostport.run { p0 := s.toUTF8.toList } with
+   | .ok ((h, p), _) => Json.arr #[bytesJ h, bytesJ p]
+   | .panic _ => panicJson) == ci
+def atoi (i : Int) (pad : Nat) (ci : Json) : Bool := !XAtoi.translated ||
+  (match XAtoi.run { p1 := i, p2 := (pad : Int) } with
+   | .ok (_, st) => bytesJ st.p0
+   | .panic _ => panicJson) == ci
+end XL
+
 /-! ### numbers -/
 
 def atoiH : Handler := fun inp impl => do
@@ -47,7 +81,7 @@ def atoiH : Handler := fun inp impl => do
   let tag := if i == minInt64 then "minint64" else if pad > 127 then "pad-beyond-buffer"
     else if differsFromStd impl then "differs-from-stdlib"
     else if i < 0 then (if pad == 0 then "neg" else "neg-padded") else (if pad == 0 then "nonneg" else "nonneg-padded")
-  return ({ model := m, agree := m == ci, spec := spec, nontrivial := inDomain, tag := tag } : Verdict).toJson
+  return ({ model := m, agree := m == ci && XL.atoi i pad ci, spec := spec, nontrivial := inDomain, tag := tag } : Verdict).toJson
 
 def i32toaH : Handler := fun inp impl => do
   let n ← inp.getObjValAs? Int "n"
@@ -55,7 +89,7 @@ def i32toaH : Handler := fun inp impl => do
   let ci := canonImpl impl
   let spec := !differsFromStd impl && ci == Json.str (toString n)
   let tag := if differsFromStd impl then "differs-from-stdlib" else if n < 0 then "neg" else "nonneg"
-  return ({ model := m, agree := m == ci, spec := spec, nontrivial := true, tag := tag } : Verdict).toJson
+  return ({ model := m, agree := m == ci && XL.i32toa n ci, spec := spec, nontrivial := true, tag := tag } : Verdict).toJson
 
 def fnvStep (h : UInt64) (b : UInt8) : UInt64 := (h ^^^ b.toUInt64) * 1099511628211
 def fnvLine (h : UInt64) (s : List Char) : UInt64 :=
@@ -98,7 +132,8 @@ def i32sweepH : Handler := fun inp impl => do
   let ip ← impl.getObjVal? "probes"
   let refOk := probeVals.all fun v => (ip.getObjValAs? String (toString v)).toOption == some (toString v)
   let tag := if bad != 0 then "differs-from-stdlib" else if part < 128 then "neg-part" else "nonneg-part"
-  return ({ model := m, agree := mp == ip, spec := refOk && bad == 0 && n == 16777216, nontrivial := true, tag := tag } : Verdict).toJson
+  let xOk := probeVals.all fun v => XL.i32toa v ((ip.getObjVal? (toString v)).toOption.getD Json.null)
+  return ({ model := m, agree := mp == ip && xOk, spec := refOk && bad == 0 && n == 16777216, nontrivial := true, tag := tag } : Verdict).toJson
 
 def uint16H : Handler := fun inp impl => do
   let n ← inp.getObjValAs? Nat "n"
@@ -106,7 +141,7 @@ def uint16H : Handler := fun inp impl => do
   let ci := canonImpl impl
   let spec := !differsFromStd impl && ci == strJ (Spec.hex4 n)
   let tag := if differsFromStd impl then "differs-from-stdlib" else s!"nibbles-{(Nat.toDigits 16 n).length}"
-  return ({ model := m, agree := m == ci, spec := spec, nontrivial := true, tag := tag } : Verdict).toJson
+  return ({ model := m, agree := m == ci && XL.uint16 n ci, spec := spec, nontrivial := true, tag := tag } : Verdict).toJson
 
 def hexVal (c : Char) : Option Nat :=
   if '0' ≤ c ∧ c ≤ '9' then some (c.toNat - 48)
@@ -140,7 +175,7 @@ def uuidH : Handler := fun inp impl => do
     | _ => false
   let spec := !differsFromStd impl && shape && ci == strJ (Spec.uuidText u)
   let tag := if differsFromStd impl then "differs-from-stdlib" else if !shape then "bad-shape" else "uuid"
-  return ({ model := m, agree := m == ci, spec := spec, nontrivial := (u.take 16).eraseDups.length > 2, tag := tag } : Verdict).toJson
+  return ({ model := m, agree := m == ci && XL.uuid u ci, spec := spec, nontrivial := (u.take 16).eraseDups.length > 2, tag := tag } : Verdict).toJson
 
 /-! ### hostport -/
 
@@ -154,7 +189,7 @@ def hostportH : Handler := fun inp impl => do
   let colons := s.toList.count ':'
   let tag := if isPanicJ impl then "panic" else if s.isEmpty then "empty" else if colons == 0 then "nocolon"
     else if colons == 1 then "colon" else "colons"
-  return ({ model := m, agree := m == ci, spec := spec, nontrivial := !s.isEmpty, tag := tag } : Verdict).toJson
+  return ({ model := m, agree := m == ci && XL.hostport s ci, spec := spec, nontrivial := !s.isEmpty, tag := tag } : Verdict).toJson
 
 /-! ### lex / parse -/
 
@@ -706,7 +741,8 @@ def targetOf (j : Json) : Option Target :=
 
 def upOf (j : Json) : Upstream :=
   match strOf j "err" with
-  | "" => .response (natList j "info") (natAt j "status") (natList j "chunks")
+  | "" => if boolAt j "cut" then .cut (natList j "info") (natAt j "status") (natList j "chunks")
+          else .response (natList j "info") (natAt j "status") (natList j "chunks")
   | "timeout" => .error .timeout | "net" => .error .net | "eof" => .error .eof | "canceled" => .error .canceled
   | _ => .error .other
 
@@ -800,14 +836,15 @@ def judge (cfg : Cfg) (items : List RItem) (rq out : Json) : ReqVerdict :=
         | .ok (.written o) => if o.isEmpty then [] else [String.ofList o]
         | _ => ["<model: no line>"])
     | _ => (Json.null, [])
-  let reached := match served with | .logged _ => true | .noStatus => true | _ => false   -- past addResponseHeaders
+  let reached := reachedHandler served   -- past addResponseHeaders
   let outJ : Option (Outcome (List Char)) → Json
     | some (.ok v) => strJ v
     | some (.panic _) => panicJson
     | none => Json.null
   let mSts := if reached then outJ (clientSTS r.tls.isSome cfg up) else Json.null
   let mFwd := if reached then outJ (r.tls.map forwardedTLS) else Json.null
-  let model := Json.mkObj [("ev", mEv), ("lines", Json.arr (mLines.map Json.str).toArray), ("sts", mSts), ("fwdtls", mFwd)]
+  let mAborted := match served with | .aborted => true | _ => false
+  let model := Json.mkObj [("ev", mEv), ("lines", Json.arr (mLines.map Json.str).toArray), ("sts", mSts), ("fwdtls", mFwd), ("aborted", mAborted)]
   let iEv := if evJ.isNull then Json.null else eventJ names (implEvent evJ)
   let fwdSeen := strOf upJ "fwd"
   let tlsPart : String := match (fwdSeen.splitOn "; tlsver="), (fwdSeen.splitOn "; tlscipher=") with
@@ -816,7 +853,7 @@ def judge (cfg : Cfg) (items : List RItem) (rq out : Json) : ReqVerdict :=
     | _, _ => ""
   let iFwd := if called && r.tls.isSome then Json.str tlsPart else Json.null
   let implView := Json.mkObj [("ev", iEv), ("lines", Json.arr (lines.map Json.str).toArray),
-    ("sts", if called then fld (fld out "client") "sts" else Json.null), ("fwdtls", iFwd)]
+    ("sts", if called then fld (fld out "client") "sts" else Json.null), ("fwdtls", iFwd), ("aborted", boolAt out "aborted")]
   -- specification, on what was observed
   let client := fld out "client"
   let cStatus := natAt client "status"
@@ -826,18 +863,29 @@ def judge (cfg : Cfg) (items : List RItem) (rq out : Json) : ReqVerdict :=
     { model := model, implView := implView, spec := spec, tag := tag, logged := !evJ.isNull,
       reqid := if called && cfg.requestID != [] then some seenId else none }
   if !countOk then mk false "event-or-write-count" else
+  -- how the response ends: a body cut short by the upstream must reach the client as an aborted response (the
+  -- handler's ErrAbortHandler passes through ServeHTTP), a whole one must not
+  let isCut := match up with | .cut .. => true | _ => false
+  let aborted := boolAt out "aborted"
+  if aborted != (isCut && called) then mk false (if aborted then "aborted-without-cause" else "cut-response-delivered-as-complete") else
+  if aborted then
+    let partOk := boolAt out "twin_same" && natAt client "extra" == 0 && (match up with
+      | .cut info st chunks => cStatus == st && natList client "infos" == info && natAt client "body" == chunks.sum
+      | _ => false)
+    mk partOk (if partOk then "upstream-cut-aborted" else "client-did-not-get-upstream-response") else
   if called != !evJ.isNull then mk false (if called then "upstream-request-not-logged" else "logged-without-upstream") else
   if !boolAt out "twin_same" then mk false "response-differs-without-logger" else
   -- the response: what the upstream said is what the client got
   let transOk := !called || (natAt client "extra" == 0 && match up with
     | .response info st chunks => cStatus == st && natList client "infos" == info && natAt client "body" == chunks.sum
+    | .cut info st chunks => cStatus == st && natList client "infos" == info && natAt client "body" == chunks.sum
     | .error e => cStatus == errStatus e && natAt client "body" == 0)
   if !transOk then mk false "client-did-not-get-upstream-response" else
   -- headers that go through the formatters
   let stsJ := fld client "sts"
   -- (a relayed informational response makes the reverse proxy clear the header map: the header is then absent,
   -- which is not a statement of this property; when it is there it must be right)
-  let relayed1xx := match up with | .response (_ :: _) _ _ => true | _ => false
+  let relayed1xx := match up with | .response (_ :: _) _ _ => true | .cut (_ :: _) _ _ => true | _ => false
   let stsWanted := r.tls.isSome && cfg.stsMaxAge > 0 && called
   let stsGood := match stsJ.getStr? with
     | .ok v => stsWanted && stsOk cfg v
@@ -886,6 +934,7 @@ def judge (cfg : Cfg) (items : List RItem) (rq out : Json) : ReqVerdict :=
     mk false (if r.url.forceQuery && (urlOfText seenURL).rawQuery == [] then "upstream-url-empty-query" else "upstream-url-differs") else
   mk true (match up with
     | .response info _ _ => if info.isEmpty then "logged" else "logged-after-informational"
+    | .cut .. => "upstream-cut"
     | .error _ => "upstream-error")
 
 end S
